@@ -21,6 +21,9 @@ seeds = [s for s in seeds if s.split("_")[0] in claimed]
 
 def run(seed):
     pid = seed.split("_")[0]
+    mp = os.path.join(VERIF, "seeded", seed, "meta.json")
+    if os.path.exists(mp) and json.load(open(mp)).get("obsolete"):
+        return seed, dict(applies=True, obsolete=json.load(open(mp))["obsolete"], detected=False, by=None)
     wt = "/tmp/seedmx_%s" % seed
     subprocess.run("git -C /repo worktree remove --force %s 2>/dev/null; git -C /repo worktree add -q --detach %s HEAD" % (wt, wt),
                    shell=True)
@@ -51,6 +54,7 @@ for seed, r in sorted(res.items()):
     mp = os.path.join(VERIF, "seeded", seed, "meta.json")
     if os.path.exists(mp):
         m = json.load(open(mp))
-        m["detected_by"] = r.get("by") if r.get("detected") else ("NOT DETECTED" if r.get("applies") else "patch no longer applies")
+        m["detected_by"] = r.get("by") if r.get("detected") else (
+            "obsolete (no longer a violation)" if r.get("obsolete") else "NOT DETECTED" if r.get("applies") else "patch no longer applies")
         json.dump(m, open(mp, "w"), indent=1)
-    print(seed, "DETECTED" if r.get("detected") else "missed", "-", r.get("by") or r.get("note"))
+    print(seed, "DETECTED" if r.get("detected") else "obsolete" if r.get("obsolete") else "missed", "-", r.get("by") or r.get("note"))
